@@ -27,7 +27,7 @@ G2 = "C17G2_builtin_registered_after_module_glue_ran"
 KINDS = {"main": dict(imports="From SS Require Import Base M_Glue.", type="glue_case",
                       mismatch="mismatches", nontrivial="count_nontrivial")}
 SHARD = 400
-RULE = ("sequential histories over 3 module names with ops {extract, insert (fresh or re-used module object), remove} "
+RULE = ("sequential histories over 3 module names with ops {extract (through every public entry point, chosen per step), insert (fresh or re-used module object), remove} "
         "for several assignments of glue kinds (module / built-in / both / none / raising) -- exhaustive up to 6 ops in the "
         "thorough tier, strided in quick -- plus random histories (8-24 ops, 4 names) that add registrations at any time, "
         "replacements, odd sys.modules entries at arbitrary scan positions (None, an object without __dict__, modules whose every "
@@ -47,7 +47,11 @@ CONFIG = dict(
     trusted_base=["model M_Glue.v is hand-written; dict operations (pop, item assignment, len, tuple(sys.modules)) are "
                   "taken to be atomic under the GIL",
                   "the harness' scheduling controller (threads parked on semaphores inside _verif.hook)"],
-    assumptions=["'sphinx' is not in sys.modules; warnings are not turned into errors (no -W error)",
+    assumptions=["an extraction op of a history is a call of one of the public entry points extract, extract_outermost, "
+                 "extract_since(None|frame), extract_until(frame, None|int|frame), a re-entrant extract_child from inside an "
+                 "unwrap hook (two calls of the installation routine), or add_glue_as_needed itself; fill_context() outside an "
+                 "extraction performs no scan in the clean code and is modelled as no step",
+                 "'sphinx' is not in sys.modules; warnings are not turned into errors (no -W error)",
                  "all other modules of the process carry no pending glue while a case runs (ensured by a warm-up scan)",
                  "a module's _stackscope_install_glue_ is present when the module is inserted (not added later)"],
     unproved_legs=["liveness of a scan under interleaving ('the scanning thread eventually writes the cache') is proved only for "
@@ -199,8 +203,35 @@ class _Env:
             del sys.modules["_c17_warm"]
             _glue.builtin_glue_pending.pop("_c17_warm", None)
             _glue.add_glue_as_needed()
+        # every entry point once (lazy imports, singledispatch caches, the re-entrant probe's registration)
+        case0 = _Case.__new__(_Case)
+        case0.env, case0.desc = self, {"via": "direct"}
+        for ep in EP_LIST:
+            case0.extraction(ep)
+        self.fill_probe()
+        _glue.add_glue_as_needed()
         self.saved_pending = dict(_glue.builtin_glue_pending)
         self.base = len(sys.modules)
+
+    def child_probe(self, frame):
+        if getattr(self, "_probe_cls", None) is None:
+            ss = self.ss
+
+            class ChildProbe(object):
+                def __init__(self, fr):
+                    self.fr = fr
+
+            @ss.unwrap_stackitem.register(ChildProbe)
+            def _unwrap_probe(obj):
+                ss.extract_child(obj.fr, for_task=False)
+                return obj.fr
+            self._probe_cls = ChildProbe
+        return self._probe_cls(frame)
+
+    def fill_probe(self):
+        import contextlib
+        from stackscope import Context
+        self.ss.fill_context(Context(obj=contextlib.nullcontext(), is_async=False))
 
     def purge(self):
         for k in [k for k in self.sys.modules if k.startswith("_c17_")]:
@@ -292,6 +323,8 @@ class _Case:
         self.nreg = 0
         self.callname = {}       # thread ident -> name of the last glue:call checkpoint
         self.untimely = []
+        self.in_op = None        # thread id (model) of the sequential extraction op in progress
+        self.enters = 0          # calls of add_glue_as_needed seen in that op
         self.escaped = []        # types of exceptions (other than the glue's own) that escaped an extraction
         self.present = {}
         for o, spec in enumerate(desc["objs"]):
@@ -359,6 +392,10 @@ class _Case:
 
     # ---- hooks
     def hook_record(self, tag, info):
+        if tag == "glue:enter" and self.in_op is not None:
+            self.enters += 1
+            if self.enters >= 2:
+                self.log.append(["R", self.in_op, True])
         if tag == "glue:call":
             nm = info.get("name", "")
             self.callname[self.env.threading.get_ident()] = int(nm[6:]) if nm.startswith("_c17_m") else -1
@@ -412,11 +449,38 @@ class _Case:
             if not ok:
                 self.untimely.append([xid, kind, ident, n])
 
-    def extraction(self):
-        if self.desc.get("via") == "extract":
-            self.env.ss.extract(self.env.sys._getframe())
+    def extraction(self, ep=None):
+        """one extraction through the public entry point `ep` (default: the descriptor's `via`)"""
+        env, ss, sysm = self.env, self.env.ss, self.env.sys
+        ep = ep or ("extract" if self.desc.get("via") == "extract" else "direct")
+        f = sysm._getframe()
+        if ep == "direct":
+            env.glue.add_glue_as_needed()
+        elif ep == "extract":
+            ss.extract(f)
+        elif ep == "outermost":
+            ss.extract_outermost(f)
+        elif ep == "since_none":
+            ss.extract_since(None)
+        elif ep == "since_frame":
+            ss.extract_since(f)
+        elif ep == "until_none":
+            ss.extract_until(f, limit=None)
+        elif ep == "until_int":
+            ss.extract_until(f, limit=1)
+        elif ep == "until_frame":
+            ss.extract_until(f, limit=f.f_back)
+        elif ep == "child":
+            ss.extract(env.child_probe(f))          # its unwrap hook calls extract_child(): a re-entrant extraction
         else:
-            self.env.glue.add_glue_as_needed()
+            raise ValueError(ep)
+
+
+# public entry points an extraction op ranges over, and the number of calls of the installation
+# routine each performs ("child": the outer extract() and the nested extract_child())
+ENTRY_POINTS = {"direct": 1, "extract": 1, "outermost": 1, "since_none": 1, "since_frame": 1,
+                "until_none": 1, "until_int": 1, "until_frame": 1, "child": 2}
+EP_LIST = ["extract", "outermost", "since_none", "since_frame", "until_none", "until_int", "until_frame", "child", "direct"]
 
 
 def _run_seq(env, case, desc):
@@ -424,21 +488,40 @@ def _run_seq(env, case, desc):
     xid = 0
     for op in desc["ops"]:
         if op[0] == "X":
+            ep = op[1] if len(op) > 1 else None
+            nexp = ENTRY_POINTS[ep] if ep else 1
             exp = case.expected_at_start()
             ok = True
+            case.in_op, case.enters = 0, 0
             try:
-                case.extraction()
+                case.extraction(ep)
             except (GlueBase, GlueErr):
                 ok = False
             except Exception as ex:       # anything else that escapes extract() is an observation, not a harness error
                 ok = False
                 case.escaped.append(type(ex).__name__)
+            finally:
+                case.in_op = None
             case.log.append(["R", 0, ok])
             if ok:
                 case.check_timely(exp, xid)
             xid += 1
-            labels.append(["F", 0])
-            stops.append([6, 1 if ok else 0, False])
+            # the model performs one whole call of the routine per expected call of this entry point
+            # (an escaping exception ends the op after the calls actually begun)
+            ncalls = nexp if ok else max(1, min(case.enters, nexp))
+            for i in range(ncalls):
+                labels.append(["F", 0])
+                stops.append([6, 1 if (ok or i < ncalls - 1) else 0, False])
+        elif op[0] == "FC":
+            # fill_context() outside an extraction: NOT an extraction -- the clean code performs no scan
+            # (model: no step); a scan observed here is logged and then disagrees with the model
+            case.in_op, case.enters = 0, 0
+            try:
+                env.fill_probe()
+            finally:
+                n, case.in_op = case.enters, None
+            if n:
+                case.log.append(["R", 0, True])
         else:
             case.env_op(op)
             labels.append(["E", op])
@@ -632,7 +715,7 @@ def run_case(desc):
             else:
                 labels, stops = _run_conc(env, case, desc)
         pend = env.glue.builtin_glue_pending
-        names = sorted({op[1] for op in _all_ops(desc) + _effects(desc) if len(op) > 1})
+        names = sorted({op[1] for op in _all_ops(desc) + _effects(desc) if op[0] in ("I", "R", "G")})
         final = [[n, (NNAME % n) in pend] for n in names]
     finally:
         env.verif.hook = None
@@ -810,7 +893,8 @@ def history_case(word, kinds, reuse, via="direct", gen="exh"):
     per_name = {}
     for sym in word:
         if sym == "X":
-            ops.append(["X"])
+            ops.append(["X", EP_LIST[(len(ops) + len(word) + sum(1 for k in kinds if "B" in k)) % len(EP_LIST)]]
+                       if via == "mixed" else ["X"])
         elif sym[0] == "I":
             n = sym[1]
             if reuse and n in per_name:
@@ -822,7 +906,8 @@ def history_case(word, kinds, reuse, via="direct", gen="exh"):
             ops.append(["I", n, o])
         else:
             ops.append(["R", sym[1]])
-    return {"mode": "seq", "via": via, "scanned": True, "objs": objs, "bfns": bfns, "ops": ops, "gen": gen}
+    return {"mode": "seq", "via": "direct" if via == "mixed" else via, "scanned": True, "objs": objs, "bfns": bfns,
+            "ops": ops, "gen": gen + ("-eps" if via == "mixed" else "")}
 
 
 def words(maxlen, names=3):
@@ -896,7 +981,9 @@ def random_history(rng, nn=4, via="direct"):
     for _ in range(rng.randint(8, 24)):
         r = rng.random()
         if r < 0.3:
-            ops.append(["X"])
+            ops.append(["X", rng.choice(EP_LIST)] if rng.random() < 0.7 else ["X"])
+            if rng.random() < 0.1:
+                ops.append(["FC"])
         elif r < 0.65 or (clean and r < 0.8):
             n, o = rng.randrange(nn), rng.randrange(no)
             if clean:
@@ -911,7 +998,7 @@ def random_history(rng, nn=4, via="direct"):
                 continue
             ops.append(["G", n])
             nreg += 1
-    ops.append(["X"])
+    ops.append(["X", rng.choice(EP_LIST)])
     return {"mode": "seq", "via": via, "scanned": rng.random() < 0.85, "objs": objs, "bfns": bfns[:nreg],
             "ops": ops, "gen": "rand-clean" if clean else "rand"}
 
@@ -972,6 +1059,13 @@ def specials():
     out.append({"mode": "seq", "via": "direct", "scanned": True, "gen": "special",
                 "objs": [["lazy", "value"], M], "bfns": [["ok", []]],
                 "ops": [["I", 0, 0], ["G", 0], ["I", 1, 1], ["X"]]})
+    # the first extraction after a module (own glue) and a module with pending built-in glue appeared goes
+    # through each public entry point in turn; later extractions must run nothing again; fill_context is no scan
+    for ep in EP_LIST:
+        out.append({"mode": "seq", "via": "direct", "scanned": True, "gen": "special-ep",
+                    "objs": [M, ["mod", None], M], "bfns": [["ok", []]],
+                    "ops": [["G", 1], ["I", 0, 0], ["I", 1, 1], ["X", ep], ["X", "extract"], ["X", ep],
+                            ["I", 2, 2], ["FC"], ["X", ep]]})
     # F4: remove A, add B, extract
     out.append({"mode": "seq", "via": "extract", "scanned": True, "objs": [M, M], "bfns": [], "gen": "special",
                 "ops": [["I", 0, 0], ["X"], ["R", 0], ["I", 1, 1], ["X"], ["X"], ["I", 2, 0], ["X"]]})
@@ -1007,18 +1101,18 @@ def make_inputs(tier, seed):
     if tier == "thorough":
         for kinds in KINDSETS:
             for reuse in (False, True):
-                for w in words(6):
-                    yield from with_twins(history_case(w, kinds, reuse))
+                for i, w in enumerate(words(6)):
+                    yield from with_twins(history_case(w, kinds, reuse, via="mixed" if i % 4 == 0 else "direct"))
     else:
         n = 0
         for kinds in KINDSETS:
             for reuse in (False, True):
-                for w in words(4):
-                    yield from with_twins(history_case(w, kinds, reuse))
+                for i, w in enumerate(words(4)):
+                    yield from with_twins(history_case(w, kinds, reuse, via="mixed" if i % 2 == 0 else "direct"))
                 for w in words(6):
                     n += 1
                     if (n + seed) % 41 == 0:
-                        yield from with_twins(history_case(w, kinds, reuse, via="extract" if n % 3 == 0 else "direct"))
+                        yield from with_twins(history_case(w, kinds, reuse, via=("extract", "mixed", "direct")[n % 3]))
     # sequential, random
     for i in range(600 if tier == "quick" else 6000):
         yield from with_twins(random_history(rng, via="extract" if i % 4 == 0 else "direct"))
